@@ -152,6 +152,11 @@ class PFlow(BaseRoutine):
         logger.debug("Max. algeb mismatch %.10g on %s", gmax, system.dae.y_name[gmax_idx])
 
         mis = max(abs(fmax), abs(gmax))
+
+        # the builtin `max` drops NaN; a NaN residual or increment (singular Jacobian) must not pass as converged
+        if np.isnan(fmax) or np.isnan(gmax) or np.isnan(np.array(self.inc)).any():
+            mis = np.nan
+
         system.vars_to_models()
 
         return mis
@@ -248,7 +253,7 @@ class PFlow(BaseRoutine):
         self.exec_time = t1 - t0
 
         if not self.converged:
-            if abs(self.mis[-1] - self.mis[-2]) < self.config.tol:
+            if len(self.mis) > 1 and abs(self.mis[-1] - self.mis[-2]) < self.config.tol:
                 max_idx = np.argmax(np.abs(system.dae.xy))
                 name = system.dae.xy_name[max_idx]
                 logger.error('Mismatch is not correctable possibly due to large load-generation imbalance.')
